@@ -111,7 +111,7 @@ static long gen_index(rng_t *r, size_t len)
 {
     long L = (long)len;
     switch (rng_below(r, 12)) {
-    case 0: return -1000000000L;
+    case 0: { static const long lo[] = { -1000000000L, -2147483648L, -2147483649L, -9223372036854775807L, -9223372036854775807L - 1 }; return lo[rng_below(r, 5)]; }
     case 1: return -L - 1;
     case 2: return -L;
     case 3: return -1;
@@ -121,7 +121,7 @@ static long gen_index(rng_t *r, size_t len)
     case 7: return L - 1;
     case 8: return L;
     case 9: return L + 1;
-    case 10: return 2000000000L;
+    case 10: { static const long hi[] = { 2000000000L, 2147483647L, 2147483648L, 4294967296L, 9223372036854775807L, 9223372036854775806L }; long v = hi[rng_below(r, 6)]; return v == 9223372036854775806L ? 9223372036854775807L - L : v; }      /* (up to the very top of the index type: a sum with the other argument wraps) */
     default: return L ? (long)rng_below(r, (uint32_t)L) : 0;
     }
 }
